@@ -66,6 +66,31 @@ def h_encoder(e, cfg):
                     e.oblige("refractory-gap", T.bnot(T.band(T.tob(sp[t1, i]), T.tob(sp[t2, i]))), elem=i, t1=t1, t2=t2, gap=gap)
 
 
+def h_generator(e, cfg):
+    """Reproducibility from the generator state, as a dataflow fact over every path: an encoder constructed with an explicit
+    torch.Generator takes EVERY random draw from that generator (then the output is a function of the input and the generator state)."""
+    g = torch.Generator()
+    g.manual_seed(0x5EEDC19)         # the dispatcher hands the operator a fresh Python wrapper of the same generator: identify it by its seed
+    import inferno.neural as neural
+    k, steps, dt, freq = cfg["encoder"], cfg["steps"], cfg["dt"], cfg["frequency"]
+    if k == "homogeneous":
+        enc = neural.HomogeneousPoissonEncoder(steps, dt, freq, refrac=cfg["refrac"], compensate=cfg["compensate"], generator=g)
+    elif k == "approx":
+        enc = neural.HomogeneousPoissonApproxEncoder(steps, dt, freq, generator=g)
+    else:
+        enc = neural.PoissonIntervalEncoder(steps, dt, freq, generator=g)
+    e.tag(encoder=k, online=cfg["online"], claim="draws-from-own-generator")
+    x = e.sym((cfg["n"],), torch.float32, "x", lo=0, hi=1)
+    n0 = len(e.rng_calls)
+    out = enc(x, online=cfg["online"])
+    if cfg["online"]:
+        out = list(out)
+    calls = e.rng_calls[n0:]
+    e.oblige("generator:some-draw", len(calls) > 0)
+    for i, (op, gen) in enumerate(calls):
+        e.oblige("generator:every-draw-from-the-encoder-generator", gen is not None and gen.initial_seed() == 0x5EEDC19, op=op, call=i, got=("default RNG" if gen is None else "another generator"))
+
+
 def h_functional(e, cfg):
     """The functional encoders directly (covers the inhomogeneous Bernoulli approximation and explicit refrac=None)."""
     import inferno.neural.functional as nf
@@ -143,13 +168,15 @@ def checks(tier):
                 else:
                     fn.append(dict(fn=which, dt=dt, steps=steps, n=n, fmax=1500.0))
     o = {"div_policy": "xr", "query_timeout_ms": 120000, "max_paths": 20000}
-    return [Check("encoders", h_encoder, enc, opts=o, timeout_s=1800), Check("functional", h_functional, fn, opts=o, timeout_s=1800)]
+    gen = [dict(c) for c in enc if c["steps"] >= 3 and c["n"] == 1 and c["dt"] in (1.0, 0.1) and c["frequency"] == 500.0 and c.get("refrac") in (None, 0.3, 2.0) and c.get("compensate") in (None, False)]
+    return [Check("encoders", h_encoder, enc, opts=o, timeout_s=1800), Check("functional", h_functional, fn, opts=o, timeout_s=1800),
+            Check("generator_flow", h_generator, gen, opts=o, timeout_s=1800)]
 
 
 BOUNDS = {
     "quick": {"encoders": "HomogeneousPoissonEncoder (refrac None/dt/2dt/3dt, compensate on/off), HomogeneousPoissonApproxEncoder, PoissonIntervalEncoder; offline and online",
-              "steps": "1, 4 (6 for the inexact-ratio configurations)", "dt": "1.0, 0.5; and (dt, refrac) in {(0.1, 0.3), (0.1, 0.2), (0.2, 0.6)} where refrac/dt is inexact in floating point", "frequency": [10, 500], "elements": "1-2 symbolic intensities in [0,1] (zero pattern forked)", "draws": "every random draw symbolic"},
+              "steps": "1, 4 (6 for the inexact-ratio configurations)", "dt": "1.0, 0.5; and (dt, refrac) in {(0.1, 0.3), (0.1, 0.2), (0.2, 0.6)} where refrac/dt is inexact in floating point", "frequency": [10, 500], "elements": "1-2 symbolic intensities in [0,1] (zero pattern forked)", "draws": "every random draw symbolic", "generator_flow": "every random op of every path receives the encoder's own torch.Generator (offline and online, all three encoder classes)"},
     "thorough": {"steps": [1, 3, 5], "frequency": [10, 500, 1000]},
 }
-OUTSIDE = ["NOT ADDRESSED by this family: reproducibility under the same torch.Generator state (C++ RNG state; under the stub the output is a function of the draws)",
+OUTSIDE = ["reproducibility is decided as a dataflow fact (every draw on every path is taken from the encoder's own generator; the C++ generator itself - same state, same draws - is trusted)",
            "statistical rate correctness", "refractory periods that are not multiples of the step time", "more than 2 elements / 5 steps"]
